@@ -358,3 +358,169 @@ CHECKS["C20"].update({
              "schema. Known finding G1; G2 (root types never compared) was repaired in /repo."),
     "technique": "Lean 4 proof (translated predicates, diff model: reflexivity, order independence, every edit reported, operations stay valid) + exhaustive small-scope correspondence + edit oracle",
 })
+
+
+# ---------------------------------------------------------------------------------------------------------------
+# Second set of final-state texts (state after rounds 3-4 of seeding, the neutral round and the last proof phases).
+# ---------------------------------------------------------------------------------------------------------------
+CHECKS["C01"]["text"] = CHECKS["C01"]["text"].replace(
+    "compose lexer and parser at TEXT level;",
+    "compose lexer and parser at TEXT level; parse_error_in_range / parse_text_error_in_range_partial (every error position the parser reports is "
+    "within the text; L6 is the only excluded case) with parse_text_render_total and parse_error_index_to_loc_total; viable_prefix_refuted records "
+    "that error positions are NOT always the end of the longest viable prefix (`extend scalar A`);")
+CHECKS["C03"].update({
+    "note": ("Trusted: Lean kernel; generators. The text-level statements print_parse_modulo_members / print_stable / print_parse_exact quantify over every "
+             "text the lexer and parser models accept (parser_output_ok discharges the bridge). Known finding R4 (member descriptions dropped by the AST "
+             "printer) is why the round trip is 'modulo members'."),
+})
+CHECKS["C03"]["text"] = CHECKS["C03"]["text"].replace(
+    "print_parse_document_exact when there are none,",
+    "print_parse_document_exact when there are none, and at TEXT level print_parse_modulo_members / print_parse_exact / print_stable (for every text the "
+    "lexer and parser accept, every indent over space/tab, every flag combination: printing the parsed tree and parsing the printed text gives the tree "
+    "back without member descriptions; parser_output_ok proves the bridge from parser output to the printer's well-formedness conditions),")
+CHECKS["C04"].update({
+    "text": ("Lean model of collect_fields (with the _seen_fragments quirk), _skip_selection (a condition that cannot be evaluated is a CoercionError caught at "
+             "the enclosing selection set: catchDirective), _fragment_type_applies, execute_fields, resolve_field (argument coercion by C07's model inside the "
+             "executor: ExecArgs.lean; completion failures caught as field errors: catchField), complete_value (lists that raise while iterated, resolve_type "
+             "that raises), default_resolver, serialisation and the error accumulator, and the spec's CollectFields/ExecuteSelectionSet/CompleteValue: "
+             "exec_refines_spec (for every ranked document whose directive conditions are evaluable the executor model's response equals the spec's; "
+             "exec_refines_spec_spreadfree_exact without that premise), acyclic_rankedB / exec_refines_spec_acyclic (acyclic + unique fragment names => "
+             "ranked: no per-document certificate needed; acyclic_needs_unique_names witness), responds (every such document gets a response), "
+             "null_error_bijection (no two errors share a path; every error sits at or below a null), list_interrupted_keeps_errors, "
+             "completion_error_is_field_error, root_failure_single_error, argument_coercion_failure_is_field_error / "
+             "argument_coercion_success_reaches_resolver, exec_world_congr / siblings_undisturbed_world, history_independent / kth_response / "
+             "serveAll_docs_unchanged / memo_sound / memo_across_requests_unsound (what may persist between requests), default_resolver_*, skip_include*, "
+             "alias_merge, keys_document_order, abstract_possible_type. Tied by ordered-data / error-multiset correspondence real executor vs model vs Lean "
+             "spec on generated schemas, valid operations (multi-spread with conditions, same-key merges under abstract types, divergent argument defaults "
+             "per implementation, null-bound directive variables), worlds (dicts, one Python class for all members of an abstract type, lazy iterables and "
+             "resolve_type that raise) and request histories (fresh and REUSED parsed documents, document unchanged afterwards)."),
+    "note": ("Trusted: Lean kernel; generators; 'the Document is never written' and 'one executor per request' are tied to the code by the to_dict() before/after "
+             "oracle and the history streams; `__schema`/`__type` are C15's model. exec_refines_spec with named spreads AND a failing directive condition rests "
+             "on the correspondence (the collect simulation covers the ok outcome)."),
+    "technique": "Lean 4 proof (executor model = spec, acyclic => responds, bijection, locality, history independence) + world-resolver correspondence",
+})
+CHECKS["C05"].update({
+    "text": ("validated_no_internal_error (full): under SchemaOk, the declarative ValidDoc (fields exist, leaf <=> no sub-selection, type conditions composite, "
+             "spreads defined, fragments well-typed, acyclic and uniquely named, roots exist), MergeSafe (the declarative form of OverlappingFieldsCanBeMerged: "
+             "same-key fields whose parent types can overlap have the same name and arguments, recursively; mergeSafeB_sound gives a sound evaluator) and a "
+             "typed world (raising iterables and resolve_types included) no request ends in an internal exception, for EVERY variable assignment (a failing "
+             "@skip/@include condition is a field error since fix D1: noInt_catchDirective); validated_shape / validated_shape_field; the bridge "
+             "rules_accept_validDoc / rules_accept_cannot_go_wrong from the C06 rule models (rule_*_iff theorems) to ValidDoc, with RuntimeTie naming exactly "
+             "what still rests on the run-time tie (roots, no __schema/__type selections, acyclicity certificate); witnesses that MergeSafe is strictly weaker "
+             "than the old KeyConsistent premise on validator-accepted documents. Tied by an adversarial stream of invalid/mutated documents: validate_ast must "
+             "return; accepted => ValidDoc and MergeSafe (Lean-evaluated) and execution under typed worlds raises no internal exception, has the schema shape and "
+             "one unambiguous value per response key."),
+    "note": ("Trusted: Lean kernel; generators. `__schema`/`__type` selections are outside this executor model (C15). The 26 rules themselves belong to C06. "
+             "Repaired on the way: V1, V2, V7, D1 (directive condition null at run time), E1."),
+    "technique": "Lean 4 proof (type soundness of the executor model under the validator's guarantees) + adversarial validate/execute oracle",
+})
+CHECKS["C06"].update({
+    "text": ("Lean model of the whole validation chain (TypeInfo stacks, ChainedVisitor/SkipNode semantics, all 26 rule visitors, VariablesCollector, fragment "
+             "cycle search, field-merge search with its caches) whose rule list must equal SPECIFIED_RULES RE-EXTRACTED from validate.py each run "
+             "(rules_match_source). EVERY one of the 26 rules has a rule_*_iff theorem: the rule, run through the model's chain on any document and schema, is "
+             "silent exactly when its declarative clause holds (ProvedAll = Rule.all, Spec.Unproved = []); the clauses state what the CODE implements, with "
+             "machine-checked refutations where that is not the specification's clause (values_spec_clause_refuted = V8, overlap_full_statement_refuted, "
+             "V3/V4 order dependence of the unfixed collector). Side conditions: the variable rules and the overlap rule are stated for the fixed code variant "
+             "(HeadVars fx, checked against the tree on every run); OverlappingFieldsCanBeMerged additionally needs OverlapHyps (ParentsAgree, no fragment named "
+             "\"\", the ssid==fid shortcut not taken, NoCrash = no RecursionError) which every parsed acyclic document satisfies but which are not derived from "
+             "'all rules silent', hence accepted_spec_valid_all_partial; spec_valid_accepted_all (valid by all 26 clauses => no rule reports) is unconditional. "
+             "Invariance: perm_definitions_all_partial, perm_selections / perm_arguments / alpha_fragments for 19 rules (tr_invariance_all_partial). Tied by "
+             "correspondence (verdict on every document; set of reporting rules on single-violation documents; every rule standalone; schema and rule-instance "
+             "histories; derived schemas) and the direct oracle: valid-by-construction => no error, each labelled single-rule violation => error attributable "
+             "to that rule, verdict unchanged under the six transformations."),
+    "note": ("Trusted: Lean kernel; generators/injectors; is_subtype/types_overlap hand-modelled. Known finding V8 (list literal at non-list position accepted). "
+             "Invariance under the transformations is not transported for the variable, values, cycle, spread and overlap clauses (oracle only)."),
+    "technique": "Lean 4 proof (all 26 rules: model silent <=> declarative clause; chain walk; invariances) + full-chain model correspondence + labelled-violation/metamorphic oracle",
+})
+CHECKS["C07"].update({
+    "text": ("Lean model of coerce_value / value_from_ast / coerce_variable_values / coerce_argument_values / scalar parsers with the Int branches, the Float "
+             "finiteness guard and the overflow handling RE-EXTRACTED / TRANSLATED from scalars.py each run (coerceInt_branches_spec) and a Lean model of "
+             "Python's int()/float() lexemes (PyNum.lean: no harness-observed annotations remain): variable_sound, literal_sound, variables_sound, "
+             "arguments_sound (=> Conforms), int_accepts_iff / float_accepts_iff (exactly which JSON inputs are accepted; inf, nan and too-large integers are "
+             "REJECTED, never raised: fix A6), literal_variable_equiv (same outcome on both routes; custom scalars as arbitrary parser parameters under "
+             "CustomAgree), omission/wrapping/rejection theorems, fuel-free restatements, coerce_value_never_raises / builtin_scalars_never_raise / "
+             "variables_never_raise (any JSON value ends in a value or a rejection), the bridge validated_arguments_sound and the TRACE theorems over whole "
+             "response trees (every_call_conforms_tree, rejected_field_is_local, no_resolver_call_on_rejected_variables_tree, "
+             "every_validated_call_conforms_tree). Tied by correspondence on all type expressions x literals x JSON values x provided/omitted/null, an extremes "
+             "stream (inf, nan, 10^400, containers nested to 20 000 levels: fix A7), a pynum stream against the real builtins, and the calls recording resolvers "
+             "actually see (order and kwargs; divergent interface implementations sharing one field node; DERIVED schemas must hand resolvers the same internal "
+             "enum values and defaults)."),
+    "note": ("Trusted: Lean kernel; translator; CustomNeverRaises / CustomAgree are hypotheses about user-supplied scalar parsers; repr(float) as wire spelling. "
+             "Nested lists of lists in the trace model and non-ASCII digits in lexemes are exercised, not modelled."),
+})
+CHECKS["C08"]["note"] = ("Trusted: Lean kernel; generators; asyncio task scheduling is only exercised. Known finding E2 (a completion that raises AFTER sub-resolvers "
+                         "of the same field were started abandons them). Residual that no model here exhibits: true parallel interleaving of callback bodies on "
+                         "worker threads (non-atomic `done += 1` in gather_futures). Hang verdicts are progress-based and confirmed by a second isolated run.")
+CHECKS["C09"]["note"] = "Trusted: Lean kernel; generators. Known finding E2 (see C08) also shows as a serial-order violation when a completion raises after its sub-resolvers started."
+CHECKS["C10"].update({
+    "text": ("Lean theorems about the hand model of index_to_loc / to_dict of every error class / GraphQLResult.response / the staged process_graphql_query / the "
+             "executors' error capture: loc_bounds (all texts, all positions, LF/CR/CRLF), index_to_loc_total_iff, data_omitted_iff, null_error_bijection, "
+             "request_bijection with root_failure_bijection / root_failure_wellformed (the root selection set cannot be collected: data null, one error without "
+             "path), null_sites_nodup, null_sites_are_null, exactly_one_error_per_site, result_wellformed, executed_response_wellformed, "
+             "response_wellformed_partial (+ refutation of the full statement: the misspelt `columne` key, finding X1); response keys and the data=None flags of "
+             "the _abort calls are re-extracted from source each run (static shape first, DYNAMIC enumeration of the finite domain of error objects / abort "
+             "sites when the shape is not recognised; the route is recorded in the evidence); tied by stage-outcome correspondence and a direct WellFormed + "
+             "site/error multiset oracle on four configurations x four submission forms (text, parsed document, parsed without locations, hand-built without "
+             "source) incl. execution-time argument coercion failures under lists, completion-time ResolverErrors, run-time directive failures, numeric "
+             "extremes, hostile text in every string that reaches an error message, and shared error instances."),
+})
+CHECKS["C11"].update({
+    "text": ("Lean model of the SDL builder (collect definitions/extensions, build_*/extend_*, roots, defaults, deprecation, circular-reference guard, "
+             "ignore_extensions, additional_types): collect_exact / collect_ok / collect_rejects_*, build_exact_noext, build_exact_partial and "
+             "build_exact_of_defaultsAgree (ValidDoc doc d => build doc = ok d, where the only semantic premise left is DefaultsAgree: every default literal "
+             "coerces the same over the definitions alone and over the merged definitions; s8_not_defaultsAgree shows finding S8 is exactly its negation), "
+             "extension_merge_exact, extend_*_exact, link_*, build_perm (definitions AND extensions may be permuted), build_rejects (every error is a library "
+             "error or the S1b RecursionError). Tied by correspondence of canonical schema dumps on generated SDL (six kinds, extensions split over blocks, "
+             "permuted orders incl. extension-before-definition through extend_schema, names differing only by case, non-root types named like roots, exotic "
+             "strings), labelled defects incl. every schema-validation rule expressible in SDL with validation ENABLED, and the direct oracle Declared(doc) / "
+             "exception class."),
+})
+CHECKS["C12"].update({
+    "text": ("Lean model of ASTSchemaPrinter as schema -> text with the module-level directive-name state threaded explicitly: print_pure (for every history of "
+             "calls the k-th output equals the output of that call alone in a fresh state; refutation for the legacy state), print_build_roundtrip "
+             "(printBuildWF s => build (schemaToDoc s) = ok s: the document the printed SDL denotes builds back to the schema; the well-formedness predicate "
+             "names each excluded shape: H2 input-object defaults with defaulted fields, H3 float-like custom scalar strings, H5 empty descriptions, H6 empty "
+             "deprecation reasons, H8 non-finite floats; witnesses that ordinary schemas satisfy it and that H2 must be excluded), default_roundtrip_doc (every "
+             "canonical default of any input type reads back), and at TEXT level print_schema_text_parses (a second, total model printSchemaT of the printer: "
+             "for every schema with printTextWF the printed text lexes and parses to the tree of the printed document, all six kinds, both argument layouts, "
+             "all three description layouts, defaults, any space/tab indent, any definition order) composed into text_roundtrip (the printed TEXT parses to a "
+             "document that builds to the schema). Both printer models are compared with the real printer's exact text on every run; every history also runs in "
+             "ONE forked child and every call alone in a fresh child; direct oracles dump(build(to_string(s))) == dump(s), fixpoint, parser accepts, root names "
+             "differing only by case, non-root types named Query/Mutation/Subscription (fix H9), exotic strings, look-alike numeric ID defaults (fix H11)."),
+    "note": ("Trusted: Lean kernel; generators. include_custom_schema_directives=True and include_introspection are not in the text-level theorem; "
+             "printBuildWF (printOrder s) is a hypothesis of text_roundtrip. Known findings H2, H3, H5, H6, H8."),
+    "technique": "Lean 4 proof (printer purity, document- and text-level round trip) + exact-text correspondence of two printer models + fresh-process reference + round-trip oracle",
+})
+CHECKS["C14"].update({
+    "text": ("Object-heap model (identities, shallow copy, heal visitor, clone, transforms, extend, resolver registries as heap objects) whose code variant flags are "
+             "RE-EXTRACTED from schema.py / ast_type_builder.py / schema_from_ast.py each run: clone_closed / transform_closed / heal_closed, "
+             "clone_frames_source / transform_sequence_frames_source / extend_frames_source / extend_sequence_frames_source (the source heap is unchanged), "
+             "clone_frames_source_registries / clone_keeps_source_digest (registering on a clone never writes the source's registries; refutation for the "
+             "shallow-copy variant), untouched_preserved_extend (+ _protected, _directives, _schema_level: everything the extension document does not name is "
+             "preserved, per schema, for all inputs), visibility_hides_type / visibility_hides_type_transform (hidden names leave the registry and, by "
+             "closedness, every reference), visitor_keeps_existing_objects, transform_preserves_untouched (type level, any list of visibility / camel-case / "
+             "heal visitors through the clone), camel_case_field_kept / camel_case_argument_kept, clone_intact / transform_intact, transform_owns_result, "
+             "with machine-checked refutations for the legacy variants (T1,T2,T3,S2). Tied by correspondence of the live object graph (identities "
+             "canonicalised, registries included) over random clone/transform/extend/register sequences on schemas with rare-but-valid names, and direct "
+             "closedness / frame / preservation oracles."),
+    "note": ("Trusted: Lean kernel; flag extraction; generators. Field- and argument-level preservation through clone-based transforms is proved for in-place "
+             "visitors and the camel-case hooks, not composed per schema. Repaired on the way: S2, T1-T4, U1."),
+    "technique": "Lean 4 proof over heap model (closedness, frame and preservation for clone/transform/extend, registries) + live object-graph correspondence",
+})
+CHECKS["C15"]["note"] = ("Trusted: Lean kernel; translator; generators; `_resolve_type_kind` and the meta-field table of field_definition are extracted statically or, when "
+                         "the shape is not recognised, by running the real code on their finite domains (route recorded in the evidence). asyncio/thread-pool runs only "
+                         "exercised by the Python oracle. Known finding I1 (residual: control characters in plain string defaults). Repaired: I1 (rest), I2, I3.")
+CHECKS["C19"].update({
+    "text": ("Model of collect_fields_untyped / selected_fields / MaxDepthValidationRule (per-operation variable coercion, fallback to the raw request variables "
+             "when they do not coerce) and an independent depth specification: flags_iff(_v), flags_iff_validated (no computed check, no fuel: unique fragment "
+             "names + declarative acyclicity + bound variables), flags_uncoercible / flags_iff_raw (an operation whose variables do not coerce is still measured, "
+             "by the truthiness of the raw values), pipeline_rejects_iff / pipeline_rejects_iff_raw (the request is rejected with a depth error iff the depth of "
+             "a selected operation exceeds n, all n >= 0 incl. 0, all operation_name filters, any default-validator outcome), no_raise(_v), name_filter, "
+             "wrap_inline_ge, wrap_spread_ge, acyclic_iff_Acyclic, depth_fuel_irrelevant, measured_eq_depth, selected_fields_exact (listed paths = selected "
+             "paths within maxdepth matching the pattern); decide refutations for the original rule and the original selected_fields. Tied by correspondence "
+             "(error set, raises, listed paths) and the direct oracles on exhaustive small distributions over fragments, raw JSON variable assignments, "
+             "repeated calls on the same rule instance and Document, also through graphql_blocking with validators."),
+    "note": ("Trusted: Lean kernel; generators. Known finding Q1-vars2: when the variable a directive needs is unavailable in the mapping the rule falls back to, "
+             "CoercionError escapes the rule (also for a valid request executing another operation of the document); the theorems carry that availability "
+             "hypothesis (ValidDeclR) and unavailable_directive_variable_raises witnesses the boundary."),
+})
